@@ -130,6 +130,17 @@ fn arb_path() -> BoxedStrategy<String> {
         1 => Just(String::new()),
         4 => "[a-z/_]{1,12}".prop_map(|s| s),
         1 => Just("топик/名前".to_string()),
+        // separators at either end, doubled, alone; whitespace; NUL
+        2 => ("[a-z]{0,6}", 0usize..8).prop_map(|(s, k)| match k {
+            0 => format!("{}/", s),
+            1 => format!("{}//", s),
+            2 => format!("/{}", s),
+            3 => "/".to_string(),
+            4 => format!("{} ", s),
+            5 => format!(" {}", s),
+            6 => format!("{}\0", s),
+            _ => format!("{}/{}/", s, s),
+        }),
         1 => (any::<u8>()).prop_map(|c| ((b'a' + c % 26) as char).to_string().repeat(1024)),
     ]
     .boxed()
